@@ -29,7 +29,13 @@ func deepToLiquid(value any, depth int) any {
 		}
 		return out
 	case reflect.Slice, reflect.Array:
-		if _, isBytes := value.([]byte); isBytes || !mayHoldIndirection(rv.Type().Elem().Kind()) {
+		if b, isBytes := value.([]byte); isBytes {
+			if depth > 0 {
+				return string(b) // nested in a container that is spelled as text: the text, not a list of byte values
+			}
+			return value
+		}
+		if !mayHoldIndirection(rv.Type().Elem().Kind()) {
 			return value
 		}
 		out := make([]any, rv.Len())
